@@ -366,6 +366,8 @@ def thread_configs(tier):
         ("pool-raise", {"progs": [[["N", 1], ["N", 2], ["N", 3]]], "nc": 1, "raises": [1], "sched": "pool"}, 1 if q else 3),
         ("pool-1p2c", {"progs": [[["N", 1], ["N", 2]]], "nc": 2, "raises": [], "sched": "pool"}, 1 if q else 3),
         ("pool-arrival-during-last-delivery", {"progs": [[["N", 1], ["N", 2]]], "nc": 2, "raises": [], "sched": "pool", "handshake": True}, 1 if q else 2),
+        ("pool-arrival-after-fault", {"progs": [[["N", 1], ["N", 2], ["N", 3]]], "nc": 1, "raises": [0], "sched": "pool", "handshake": True,
+                                      "catching": True}, 1 if q else 2),
         ("pool-2p1c", {"progs": [[["N", 1], ["C", 2]], [["N", 11], ["E", 12]]], "nc": 1, "raises": [], "sched": "pool"}, 1 if q else 2),
         ("eventloop", {"progs": [P3], "raises": [], "sched": "eventloop"}, 2 if q else 3),
         ("eventloop-raise", {"progs": [[["N", 1], ["N", 2]]], "raises": [0], "sched": "eventloop"}, 1 if q else 2),
